@@ -78,6 +78,11 @@ FLAG_TABLE = {
 }
 
 
+def _posn(n):
+    m = re.search(r':(\d+):(\d+)', n.get('sp', ''))
+    return (int(m.group(1)), int(m.group(2))) if m else (0, 0)
+
+
 @rule('FLAG-PLUMB', 'OUT-CONTENT', 'OUT-PATH', 'NO-WRITE-ON-ERROR')
 def rule_cli_generate(ctx):
     obs = []
@@ -144,7 +149,11 @@ def rule_cli_generate(ctx):
         g = gens[0]
         qa = ev(g['args'][0])
         sa = ev(g['args'][1])
-        if {f.split('.')[-1] for f in TM.fields_in(qa)} == {'query_path'} and {f.split('.')[-1] for f in TM.fields_in(sa)} == {'schema_path'}:
+        pxf = sorted({x for t_ in (qa, sa) for _, xs in TM.paths(t_) for x in xs})
+        if pxf:
+            obs.append(bad('FLAG-PLUMB', 'generate/paths', 'the paths given on the command line are rewritten (%s) before the library reads them' % pxf, g.get('sp', ''),
+                           'the library is not called with the same inputs (a symlinked schema picks its parser from another extension ..)'))
+        elif {f.split('.')[-1] for f in TM.fields_in(qa)} == {'query_path'} and {f.split('.')[-1] for f in TM.fields_in(sa)} == {'schema_path'}:
             obs.append(ok('FLAG-PLUMB', 'generate/paths', 'query and schema paths go to the library entry in that order', g.get('sp', '')))
         else:
             obs.append(bad('FLAG-PLUMB', 'generate/paths', 'library entry receives (%s, %s)' % (sorted(TM.fields_in(qa)), sorted(TM.fields_in(sa))), g.get('sp', ''),
@@ -239,7 +248,11 @@ def rule_cli_generate(ctx):
         consts = TM.consts_in(dest)
         xfs = {x for _, xs in TM.paths(dest) for x in xs}
         fields = {f.split('.')[-1] for f in TM.fields_in(dest)}
-        if 'with_extension' in xfs and 'file_name' in xfs and {'query_path', 'output_directory'} <= fields:
+        foreign = sorted(xfs - {'with_extension', 'file_name', 'fmt', 'parent'})
+        if foreign:
+            obs.append(bad('OUT-PATH', 'generate/dest', 'the destination path goes through %s: it is no longer a function of the command line alone' % foreign, creates[0].get('sp', ''),
+                           'output lands beside another file (symlinked query, other casing ..) or under another stem'))
+        elif 'with_extension' in xfs and 'file_name' in xfs and {'query_path', 'output_directory'} <= fields:
             obs.append(ok('OUT-PATH', 'generate/dest', 'destination = output_directory/<query file name>.rs, or beside the query file', creates[0].get('sp', '')))
         else:
             obs.append(bad('OUT-PATH', 'generate/dest', 'destination path is built from %s with %s and constants %s' % (sorted(fields), sorted(xfs), sorted(map(str, consts))),
@@ -251,6 +264,24 @@ def rule_cli_generate(ctx):
         uncovered = [o for o, xs in TM.paths(dest) if o[0] == 'field' and o[1].split('.')[-1] in ('query_path', 'output_directory') and 'with_extension' not in xs]
         if exts != {'rs'} or uncovered:
             obs.append(bad('OUT-PATH', 'generate/extension', 'with_extension constants %s at %d sites' % (sorted(exts), len(ext_calls)), fn.loc, 'wrong extension'))
+        # every successful return has written the file: no `return Ok(..)` between the library call and the write
+        if gens and writes:
+            owner = fl.owner_of(writes[0]) if hasattr(fl, 'owner_of') else fn
+            early = []
+            if owner is fn:
+                gl, wl = _posn(gens[0]), _posn(writes[0])
+                for r_ in fn.walk(lambda x: x['k'] == 'ret'):
+                    e_ = r_.get('e') or {}
+                    while e_.get('k') in ('wrap',):
+                        e_ = e_['e']
+                    is_ok = e_.get('k') == 'call' and (e_.get('callee') or {}).get('path', '').endswith('Ok')
+                    if is_ok and _posn(r_) < wl:
+                        early.append(r_)
+            if early:
+                obs.append(bad('OUT-CONTENT', 'generate/write-on-success', 'a successful `return Ok(..)` is reachable before the file is written', early[0].get('sp', ''),
+                               'the command exits 0 without writing (or replacing) `<stem>.rs`'))
+            else:
+                obs.append(ok('OUT-CONTENT', 'generate/write-on-success', 'no successful return precedes the write', writes[0].get('sp', '')))
         # NO-WRITE-ON-ERROR
         c = creates[0]
         if gens:
@@ -349,7 +380,17 @@ def rule_introspect(ctx):
         loop = itn is not None
         if f0 == {'Header.name'} and f1 == {'Header.value'} and loop:
             itt = ctx.pv.eval(h_owner, itn[1], fl.env_of(h_owner), 0)
-            if itt[:1] == ('param',) and itt[3] == 'headers' and not (_chain(h_owner, itn[1]) & {'filter', 'take', 'skip', 'step_by', 'take_while', 'skip_while', 'filter_map', 'dedup'}):
+            from .rules_c06 import _loop_skips
+            hnode = h if h_owner is fl.owner_of(h) else fl.proxy[id(h)]
+            lnode = H.iteration_node(h_owner, hnode)
+            partial = []
+            if lnode is not None:
+                partial = [c_[0] for c_ in H.conditional_context(h_owner, hnode, upto=lnode) if c_[0] in ('if', 'match')]
+                partial += [x.get('k') for x in _loop_skips(h_owner, lnode, hnode)]
+            if partial:
+                obs.append(bad('REQ-BUILD', 'introspect/custom-headers', 'inside the header loop the header is added only conditionally (%s)' % ', '.join(partial), h.get('sp', ''),
+                               'some --header arguments are silently not sent'))
+            elif itt[:1] == ('param',) and itt[3] == 'headers' and not (_chain(h_owner, itn[1]) & {'filter', 'take', 'skip', 'step_by', 'take_while', 'skip_while', 'filter_map', 'dedup'}):
                 obs.append(ok('REQ-BUILD', 'introspect/custom-headers', 'every --header is added as (name, value)', h.get('sp', '')))
             else:
                 obs.append(bad('REQ-BUILD', 'introspect/custom-headers', 'header loop does not cover all given headers', h.get('sp', ''), 'some headers are not sent'))
